@@ -15,6 +15,8 @@ Legs
             (its NAME carries the wall-clock version and is not compared); the directory validates.
   hash      the same migration files written in P different creation orders into P directories;
             `migrate hash` -> atlas.sum bytes identical; `migrate validate` accepts every one.
+  files     the schema as 4 .hcl files in a directory (`--to file://dir`): `schema diff` output and the
+            `migrate diff` file + its sum line are byte-identical in P fresh processes.
   apply     the HCL source with its top-level blocks permuted and split into several files in a
             directory (`--to file://dir`): `schema apply` on a fresh SQLite file; the resulting databases
             (independent python sqlite3 dump of sqlite_master) are equal as sets of objects, and the
@@ -58,6 +60,12 @@ def derived(kind, differs):
     """same rule as harness/mon/c20 Derived(): only the most upstream differing kind of an input is reported"""
     def up(*ks):
         return any(k in differs for k in ks)
+    if kind == "changes":
+        return up("eval.order.from", "eval.order.to")
+    if kind == "hcl.from":
+        return up("eval.order.from")
+    if kind == "hcl.to":
+        return up("eval.order.to")
     if kind == "plan.cmds":
         return up("changes")
     if kind == "plan.full":
@@ -255,6 +263,49 @@ def leg_hash(ctx):
                         "atlas_sum_head": outs[0][1][:120], "verdict": "held"})
 
 
+def leg_files(ctx, emit):
+    """the schema as SEVERAL files in a directory (`--to file://dir`): output of P fresh processes byte-identical"""
+    blocks = json.load(open(os.path.join(emit, "all.blocks.json")))
+    names = ["10_main.hcl", "2_extra.hcl", "b_more.hcl", "A_first.hcl"]
+    base = ctx.casedir("-files-src")
+    sd = os.path.join(base, "schema")
+    os.makedirs(sd)
+    for i, nm in enumerate(names):
+        with open(os.path.join(sd, nm), "w") as f:
+            f.write("".join(blocks[i::len(names)]))
+    ctx.count("files:files", len(names))
+    outs = [None] * P
+
+    def work(i):
+        d = ctx.casedir("-files-diff")
+        outs[i] = ctx.atlas_run(["schema", "diff", "--dev-url", DEV, "--from", "sqlite://" + os.path.join(d, "empty.db"), "--to", "file://" + sd], d)
+
+    ctx.par(list(range(P)), work)
+    compare_outputs(ctx, "files", "schema-diff", outs, {"leg": "files", "seed": ctx.seed})
+    outs2 = [None] * P
+
+    def work2(i):
+        d = ctx.casedir("-files-mdiff")
+        md = os.path.join(d, "migrations")
+        os.makedirs(md)
+        rc, so, se = ctx.atlas_run(["migrate", "diff", "init", "--dir", "file://" + md, "--dev-url", DEV, "--to", "file://" + sd], d)
+        body = ""
+        if rc == 0:
+            fs = sorted(f for f in os.listdir(md) if f.endswith(".sql"))
+            if len(fs) != 1:
+                rc = 99
+            else:
+                # file content + atlas.sum with the wall-clock version of the file NAME projected away
+                body = open(os.path.join(md, fs[0])).read() + "\n== atlas.sum\n" + re.sub(r"\d{14}", "NOW", open(os.path.join(md, "atlas.sum")).read())
+        outs2[i] = (rc, body, se)
+
+    ctx.par(list(range(P)), work2)
+    # the directory-level h1 of atlas.sum covers the file NAME (wall-clock version): only the file line is comparable
+    outs2 = [(rc, re.sub(r"(?m)\A(.*== atlas.sum\n)h1:[^\n]*\n", r"\1", b, flags=re.S), se) for rc, b, se in outs2]
+    if compare_outputs(ctx, "files", "migrate-diff", outs2, {"leg": "files", "seed": ctx.seed}):
+        ctx.sample({"leg": "files", "files": len(names), "processes": P, "migration_bytes": len(outs2[0][1]), "verdict": "held"})
+
+
 def master(dbpath):
     con = sqlite3.connect(dbpath)
     rows = sorted(tuple("" if x is None else str(x) for x in r) for r in con.execute("SELECT type, name, tbl_name, sql FROM sqlite_master"))
@@ -362,7 +413,7 @@ def replay(ctx):
         print("cannot produce sources:", why)
         sys.exit(2)
     {"proc": lambda: leg_proc(ctx, emit), "inspect": lambda: leg_inspect(ctx, emit), "diff": lambda: leg_diff(ctx, emit),
-     "mdiff": lambda: leg_mdiff(ctx, emit), "hash": lambda: leg_hash(ctx), "apply": lambda: leg_apply(ctx, emit)}.get(leg, lambda: print("unknown leg"))()
+     "mdiff": lambda: leg_mdiff(ctx, emit), "hash": lambda: leg_hash(ctx), "files": lambda: leg_files(ctx, emit), "apply": lambda: leg_apply(ctx, emit)}.get(leg, lambda: print("unknown leg"))()
     print("violations:", ctx.viol_keys)
     ctx.finish("replay of leg %s" % leg)
     sys.exit(1 if ctx.violations() else 0)
@@ -379,6 +430,7 @@ def main():
         leg_diff(ctx, emit)
         leg_mdiff(ctx, emit)
         leg_hash(ctx)
+        leg_files(ctx, emit)
         leg_apply(ctx, emit)
     else:
         ctx.inconclusive("cli-legs:no-sources-or-no-cli")
